@@ -22,4 +22,6 @@ IdentityIsMechIdentity == s.st \in {"WaitBegin", "Authed"} =>
 RejectClearsIdentity == s.st = "WaitAuth" => s.authz = "none" /\ s.ident = ""
 FailuresBounded == s.fails <= MaxFailures /\ (s.fails = MaxFailures => s.st = "Dead")
 NoAuthWithoutOk == [][s'.authz # "none" /\ s.authz = "none" => s'.st = "WaitBegin"]_vars
+\* rejections add up over the whole handshake: nothing (a completed and abandoned exchange included) gives attempts back
+RejectionsOnlyAddUp == [][s'.fails >= s.fails /\ (s'.fails > s.fails => s'.fails = s.fails + 1)]_vars
 =============================================================================
